@@ -255,4 +255,26 @@ def PruneSpec (p q : Proj) : Prop :=
   Restricted (referenced p (·.configs)) p.configs q.configs
 instance (p q : Proj) : Decidable (PruneSpec p q) := by unfold PruneSpec; exact inferInstance
 
+/-! ## `ForEachService` itself (round 5): the callback sequence -/
+
+/-- `y` comes strictly before `x` in `l` -/
+def before (l : List String) (y x : String) : Bool := (l.takeWhile (fun z => z != x)).contains y
+
+/-- the roots of a walk: no name = every enabled service (`getServicesByNames`) -/
+def rootsOf (p : Proj) (names : List String) : List String := if names.isEmpty then keys p.services else names
+
+/-- the outcome the property prescribes for `ForEachService names fn options` (`fn` never failing):
+`none` = "no such service", `some S` = the set of services `fn` is called with -/
+def eachWanted (p : Proj) (names : List String) (pol : Policy) : Option (List String) :=
+  selectWanted p (rootsOf p names) pol
+
+/-- the callback sequence of a successful `ForEachService`: every service of the closure exactly once, and a service
+pulled in by `x` (a dependency of `x`; a dependent of `x` under `IncludeDependents`) is called before `x` unless it
+lies on a dependency cycle through `x` -/
+def ForEachSpec (p : Proj) (names : List String) (pol : Policy) (calls : List String) : Prop :=
+  calls.Nodup ∧ SameSet calls (closure p.services pol (rootsOf p names)) ∧
+  ∀ x ∈ calls, ∀ y ∈ succ p.services pol x, before calls y x = true ∨ x ∈ closure p.services pol [y]
+instance (p : Proj) (names : List String) (pol : Policy) (calls : List String) : Decidable (ForEachSpec p names pol calls) := by
+  unfold ForEachSpec; exact inferInstance
+
 end CV.Sel
